@@ -29,8 +29,11 @@ RULE = (
     "default ctor inside a running loop, fluent), Observable.__await__ inside a coroutine, Observable.run / reactivex.run on "
     "CurrentThreadScheduler, ImmediateScheduler and the default (new-thread) scheduler; oracle: last element (by identity) / "
     "the sequence's error (by identity) / SequenceContainsNoElementsError. start: start(func, virtual scheduler) / "
-    "to_async(func, virtual scheduler)(*args) with 0..3 probes subscribing at generated ticks (before and after the call ran); "
-    "oracle: func called exactly once with the arguments, every probe sees [N(result), C] (or [E(exc)] if func raised). "
+    "to_async(func, virtual scheduler)(*args), called before the scheduler runs or from inside a scheduled action, with 0..3 "
+    "probes subscribing synchronously after the call or at generated ticks (before and after the function ran), each "
+    "unsubscribing never / immediately / after 0..2 ticks; oracle: func called exactly once with the arguments whatever the "
+    "observers do, every probe still subscribed when the result exists sees [N(result), C] (or [E(exc)] if func raised), a "
+    "probe that unsubscribed before the function ran sees nothing. "
     "from_callback: func(*args, cb) with 0..2 leading args, cb invoked with 0..4 arguments synchronously or at a later "
     "virtual tick, without mapper / with mapper / with raising mapper, 1-2 subscriptions; oracle: exactly [N(v), C] at the "
     "callback's tick with v = the argument list (the bare argument when there is exactly one; None/empty for none) or the "
@@ -353,61 +356,96 @@ def _run_start(case):
     args = [val(n) for n in case["args"]]
     if case["raises"]:
         lab.arm = {"func": {0}}
-    res = []
 
     def body(*a):
-        r = ("r",) + tuple(a)
-        res.append(r)
-        return r
+        return ("r",) + tuple(a)
 
     f = lab.fn("func", body)
-    probes = []
-    pre = [s for s in case["subs"] if s is None]
-    if case["form"] == "start":
-        if args:
-            raise HarnessError("start takes no args")
-        o = reactivex.start(f, lab.sched)
-    else:
-        o = reactivex.to_async(f, lab.sched)(*args)
-    if lab.cb_count.get("func", 0):
-        return FAIL("start:called-before-scheduler-ran", f"func called at construction; case={case}")
-    for i, s in enumerate(case["subs"]):
-        p = lab.probe(f"p{i}")
-        probes.append(p)
-        if s is None:
-            p.subscribe(o)
+    # subscribers: legacy form None|tick, or {"at": None|tick, "unsub": None|"now"|delta}
+    subs = [s if isinstance(s, dict) else {"at": s, "unsub": None} for s in case["subs"]]
+    call_at = case.get("call_at")
+    holder = []
+    probes = [lab.probe(f"p{i}") for i in range(len(subs))]
+
+    def create():
+        if case["form"] == "start":
+            if args:
+                raise HarnessError("start takes no args")
+            holder.append(reactivex.start(f, lab.sched))
         else:
-            lab.at(s, lambda p=p: p.subscribe(o))
-    lab.run()
+            holder.append(reactivex.to_async(f, lab.sched)(*args))
+        if lab.cb_count.get("func", 0):
+            raise _Early()
+        for p, s in zip(probes, subs):
+            if s["at"] is None:
+                attach(p, s)
+
+    def attach(p, s):
+        p.subscribe(holder[0])
+        if s["unsub"] == "now":
+            p.dispose()
+        elif s["unsub"] is not None:
+            lab.at(lab.now() + s["unsub"], p.dispose)
+
+    try:
+        if call_at is None:
+            create()
+        else:
+            lab.at(call_at, create)
+        base = call_at or 0
+        for p, s in zip(probes, subs):
+            if s["at"] is not None:
+                lab.at(base + s["at"], lambda p=p, s=s: attach(p, s))
+        lab.run()
+        if isinstance(lab.escaped, _Early):
+            raise lab.escaped
+    except _Early:
+        return FAIL("start:called-before-scheduler-ran", f"func called at construction; case={case}")
     if lab.inconclusive:
         return SKIP(lab.inconclusive)
     if lab.escaped is not None:
         return FAIL(f"start:escaped:{type(lab.escaped).__name__}", f"{lab.escaped!r}; case={case}")
     calls = [e for e in lab.cb_log if e[2] == "func"]
     if len(calls) != 1:
-        return FAIL("start:call-count", f"func called {len(calls)} times; case={case}")
+        return FAIL("start:call-count", f"func called {len(calls)} times (every invocation of the async function must call it exactly once, whatever its observers do); case={case}")
     if calls[0][3] != [canon(a) for a in args]:
         return FAIL("start:call-args", f"func called with {calls[0][3]} expected {[canon(a) for a in args]}; case={case}")
-    call_tick = calls[0][0]
-    for p, s in zip(probes, case["subs"]):
-        t = max(call_tick, s if s is not None else 0)
-        if case["raises"]:
-            exp = [[t, "E", ["exc", "inj:func:0"]]]
+    call_tick, call_seq = calls[0][0], calls[0][1]
+    gone_early = 0
+    for p, s in zip(probes, subs):
+        if p.disposed_seq is not None and p.disposed_seq < call_seq:
+            exp = []  # unsubscribed before the function ran
+            gone_early += 1
         else:
-            exp = [[t, "N", canon(("r",) + tuple(args))], [t, "C", None]]
+            t = max(call_tick, p.sub_tick)
+            if case["raises"]:
+                exp = [[t, "E", ["exc", "inj:func:0"]]]
+            else:
+                exp = [[t, "N", canon(("r",) + tuple(args))], [t, "C", None]]
         if p.trace() != exp:
             return FAIL("start:trace" + ("-error" if case["raises"] else ""), f"probe {p.name} saw {p.trace()} expected {exp}; case={case}")
-    late = any(s is not None and s > call_tick for s in case["subs"])
+    late = any(p.sub_tick is not None and p.events and p.events[0][3] > call_seq and p.sub_tick >= call_tick and s["at"] not in (None, 0) for p, s in zip(probes, subs))
     cls = [case["form"]] + (["func-raised"] if case["raises"] else []) + (["late-subscriber"] if late else []) + (["no-subscriber"] if not probes else [])
-    return OK(case["raises"] or late or len(probes) != 1 or bool(args), cls)
+    if gone_early:
+        cls.append("unsubscribed-before-call")
+        if gone_early < len(probes):
+            cls.append("unsubscribed-before-call+other-observer")
+    if call_at is not None:
+        cls.append("called-inside-scheduler-action")
+    return OK(case["raises"] or late or len(probes) != 1 or bool(args) or gone_early > 0, cls)
+
+
+class _Early(Exception):
+    pass
 
 
 @st.composite
 def _start_cases(draw):
     form = draw(st.sampled_from(["start", "to_async", "to_async"]))
     args = [] if form == "start" else draw(st.lists(st.sampled_from(NAMES), max_size=3))
-    subs = draw(st.lists(st.one_of(st.none(), st.integers(0, 3)), max_size=3))
-    return {"form": form, "args": args, "raises": draw(st.booleans()), "subs": subs}
+    sub = st.fixed_dictionaries({"at": st.one_of(st.none(), st.none(), st.integers(0, 3)), "unsub": st.sampled_from([None, None, "now", "now", 0, 1, 2])})
+    subs = draw(st.lists(sub, max_size=3))
+    return {"form": form, "args": args, "raises": draw(st.booleans()), "call_at": draw(st.sampled_from([None, None, 0, 2])), "subs": subs}
 
 
 # ---------------------------------------------------------------------------------------
